@@ -110,19 +110,18 @@ def intCells (cells : List Cell) : Except QErr (List Int) :=
     | .lit (.int b) => .ok b
     | _ => .error .sumNotNumber
 
-/-- `sumInt64.Accumulate` over a group: a running sum that leaves int64 is an error (09a61fb; the pinned tree
-    wrapped). -/
+/-- `sumInt64.Accumulate` over a group: the sum is kept exactly (math/big) and the group fails when the TOTAL is not
+    an int64 (4abc0e2; 09a61fb failed on the first running sum that left int64, which depends on the order of the
+    rows; the pinned tree wrapped). Written as the loop of the code: the exact running sum, looked at once at the end. -/
 def sumEngine (xs : List Int) : Except QErr Int :=
-  xs.foldlM (fun acc b => if inInt64 (acc + b) then .ok (acc + b) else .error .sumOverflow) 0
+  let total := xs.foldl (fun acc b => acc + b) 0
+  if inInt64 total then .ok total else .error .sumOverflow
 
-/-- The arithmetic sum, as far as it is defined whatever the order of the rows: when the positive (negative)
-    values alone leave int64 an intermediate sum may overflow in some order and not in another. -/
+/-- The arithmetic sum as the reference defines it: the positive and the negative values summed apart. -/
 def sumExact (xs : List Int) : Except QErr Int :=
   let pos := (xs.filter (· > 0)).foldl (· + ·) 0
   let neg := (xs.filter (· < 0)).foldl (· + ·) 0
-  let total := xs.foldl (· + ·) 0
-  if inInt64 pos && inInt64 neg then .ok total
-  else if inInt64 total then .error .sumOrderDependent else .error .sumOverflow
+  if inInt64 (pos + neg) then .ok (pos + neg) else .error .sumOverflow
 
 /-- What an aggregate yields on a group. `intSum`: how int64 values are summed (the engine's accumulator for
     the planner model, the arithmetic sum for the reference); `floatAdd` is IEEE addition on bits, supplied by
